@@ -14,6 +14,7 @@ CONSTANTS
   N6 = 0
   MAX = 32767
   MaxDigits <- Int64MaxDigits
-  Extra <- FileTexts
+  Extra <- NoExtra
+  ExtraSeq <- FileSeq
 INVARIANTS EmitInv
 CHECK_DEADLOCK FALSE
